@@ -207,3 +207,59 @@ Proof.
   - rewrite S1, F1. reflexivity.
   - reflexivity.
 Qed.
+
+(* ------------------------------------------------------------------ ranking: termination up to
+   fairness.  Every step of a thread that changes its stack either starts a nested call (a
+   decision of the user's init code / extern function, or of an idle thread), or returns from the
+   innermost call, or moves the innermost call to a program point of strictly smaller rank; the
+   stacks of the other threads are untouched (step_other).  A call therefore needs at most
+   rank PCall = 18 own effective steps plus the steps of the nested calls its user code makes. *)
+Definition rank (p : pc) : nat :=
+  match p with
+  | PCall => 18 | PSpin => 17 | PGilTest => 16 | PGilInit => 15 | PGilRelease => 14 | PCas1 => 13
+  | PMTest => 12 | PMInit => 11 | PCas2 => 10 | PLock => 9 | PChk => 8 | PMark => 7 | PInitStart => 6
+  | PInitRun => 5 | PInitOk => 4 | PInitFail => 4 | PRel => 3 | PRet => 2 | PInPy => 1
+  end.
+
+Inductive effect (old new : list frame) : Prop :=
+| EffNone : new = old -> effect old new
+| EffPush : forall l', new = (l', PCall) :: old -> (old = [] \/ exists l p r, old = (l, p) :: r /\ midpc p = true) ->
+            effect old new
+| EffPop : forall f, old = f :: new -> effect old new
+| EffDown : forall l p p' r, old = (l, p) :: r -> new = (l, p') :: r -> rank p' < rank p -> effect old new.
+
+Theorem bounded_steps s t c : effect (stacks s t) (stacks (step s (t, c)) t).
+Proof.
+  ustep. destruct (t <? nthr s) eqn:Ht; cbn [negb]; [|apply EffNone; reflexivity].
+  destruct (stacks s t) as [| [l p] rest] eqn:Hst.
+  - destruct c; simp_state; rewrite ?updf_same, ?Hst;
+      [eapply EffPush; [reflexivity | left; reflexivity] | apply EffNone; reflexivity | apply EffNone; reflexivity].
+  - destruct p; split_ifs; simp_state; split_ifs; simp_state; rewrite ?updf_same, ?Hst;
+      try (apply EffNone; reflexivity);
+      try (eapply EffDown; [reflexivity | reflexivity | cbn; lia]);
+      try (eapply EffPop; reflexivity);
+      try (eapply EffPush; [reflexivity | right; eauto 6]).
+Qed.
+
+(* after a failed initialization a call of that library never reaches the init code or the extern
+   function: each of its effective steps lowers the rank within the "plain" program points, and it
+   ends with the zeroed result *)
+Definition plainpc (p : pc) : bool :=
+  match p with PMark | PInitStart | PInitRun | PInitOk | PInitFail | PInPy => false | _ => true end.
+
+Theorem failed_call_progress n sched l t c p rest :
+  let s := run n sched in
+  ist (libs s l) = DoneFail -> stacks s t = (l, p) :: rest -> plainpc p = true ->
+  let s' := step s (t, c) in
+  stacks s' t = stacks s t \/
+  (exists p', stacks s' t = (l, p') :: rest /\ rank p' < rank p /\ plainpc p' = true) \/
+  (p = PRet /\ stacks s' t = rest /\ zeros s' l = S (zeros s l)).
+Proof.
+  intros s F Hst Pp. destruct (fail_facts s l (run_inv n sched) F) as (C & O & Sw).
+  ustep. destruct (t <? nthr s) eqn:Ht; cbn [negb]; [|left; reflexivity].
+  rewrite Hst. destruct p; try discriminate; rewrite ?C, ?O, ?Sw;
+    split_ifs; simp_state; split_ifs; simp_state; rewrite ?updf_same, ?Hst;
+    try (left; reflexivity);
+    try (right; left; eexists; split; [reflexivity | split; [cbn; lia | reflexivity]]);
+    try (right; right; repeat split; reflexivity).
+Qed.
